@@ -8,7 +8,7 @@
    [record_all h0 l] = after recording the (value, count) list l; [weight P l] = number of recorded occurrences whose
    value satisfies P; [is_kth lo hi l k e] = e is in range, fewer than k occurrences are < e and at least k are <= e,
    i.e. e is the k-th order statistic of the recorded data. *)
-From FunV Require Import Base.Tac Model.Hdr Proofs.Hdr_bits Proofs.Hdr_geom Proofs.Hdr_walk Proofs.Hdr_data Proofs.Hdr_main.
+From FunV Require Import Base.Tac Model.Hdr Proofs.Hdr_bits Proofs.Hdr_geom Proofs.Hdr_walk Proofs.Hdr_data Proofs.Hdr_main Proofs.Hdr_store.
 Local Open Scope Z_scope.
 
 (* bitLen is the bit length of every positive int64 (unbounded proof from Z.log2/shift facts, no sweep) *)
@@ -156,3 +156,18 @@ Theorem C19_window_merge_total :
     (forall i, h_counts (w_m w') i = sum_counts (map (run_hops h0) opss) i).
 Proof. exact window_merge_total. Qed.
 Print Assumptions C19_window_merge_total.
+
+(* several live histograms (source, snapshots, imported copies, merge targets): an operation on one store
+   entry leaves every other histogram and snapshot unchanged; Export/Import/New only append.  Trivial in the
+   functional model -- the implementation is held to it by the multi-histogram correspondence cases and the
+   per-histogram oracles (signatures C19:Export:aliased / C19:Import:aliased). *)
+Theorem C19_export_import_independent :
+  forall lo hi sig st o st' r, mstep lo hi sig st o = Ok (st', r) ->
+  (forall j, (j < length (ms_h st))%nat -> mop_target o <> Some j ->
+             nth_error (ms_h st') j = nth_error (ms_h st) j) /\
+  (length (ms_h st) <= length (ms_h st'))%nat /\
+  (forall k, (k < length (ms_s st))%nat -> (forall j d, o <> MScribble k j d) ->
+             nth_error (ms_s st') k = nth_error (ms_s st) k) /\
+  (length (ms_s st) <= length (ms_s st'))%nat.
+Proof. exact export_import_independent. Qed.
+Print Assumptions C19_export_import_independent.
